@@ -16,7 +16,7 @@ def core(line):
 def run(histories, timeout=600):
     """histories: list of op lists (each must start with `new`).  Returns per history (impl lines, model lines or None where the model has no opinion)."""
     ops = [o for h in histories for o in h]
-    impl, _ = common.run_impl("api", "\n".join(ops) + "\n", stateless=False, timeout=timeout)
+    impl, _ = common.run_impl("api", "\n".join(ops) + "\n", stateless=True, timeout=timeout)     # a fault ends the instance: the harness restarts and the next `new` starts afresh
     mops = [o for o in ops if o.split()[0] in MODEL_OPS]
     try:
         mout = common.run_model("seq", "\n".join(mops) + "\n")
@@ -93,10 +93,25 @@ def compare(ctx, prop, histories, results, tag="seq"):
     """correspondence: first differing observation per run -> ctx.broken; returns number of differing lines"""
     ndiff, first = 0, None
     for h, (io, mo) in zip(histories, results):
+        unknown = False
         for k, o in enumerate(h):
             if mo[k] is None:
                 continue
             a = mo[k]
+            if o.startswith("new "):
+                unknown = False
+            if a == "ret=?":
+                unknown = True                # a format the model does not cover was loaded: no opinion until the model accepts a file again
+                continue
+            if unknown:
+                if o.startswith("opendata") and a == "ret=0":
+                    unknown = False
+                elif o.startswith("opendata"):
+                    pass                      # acceptance itself is still compared
+                else:
+                    continue
+            if o.startswith("opendata") and a != "ret=0":
+                unknown = True                # a rejected file leaves the previous song in a state the model does not track (tempo, loop flags)
             b = core(io[k]) if k < len(io) else "<missing>"
             if a != b:
                 ndiff += 1
